@@ -12,6 +12,7 @@ package main
 
 import (
 	"encoding/json"
+	"flag"
 	"fmt"
 	"io"
 	"net"
@@ -35,10 +36,12 @@ type desc struct {
 	ResSet  bool     `json:"resources_set"`
 	Acc     []string `json:"access"`
 	AccSet  bool     `json:"access_set"`
-	Kinds   []string `json:"handler_kinds"`    // get call auth access new
-	HPat    string   `json:"handler_pattern"`  // pattern the handler is registered on
-	Layout  []hdl    `json:"layout,omitempty"` // further Handle calls (nested patterns, mounted muxes, root pattern)
-	Queue   string   `json:"queue"`            // "default" (= service name), "off", or a group name
+	Kinds   []string `json:"handler_kinds"`          // get call auth access new
+	HPat    string   `json:"handler_pattern"`        // pattern the handler is registered on
+	Layout  []hdl    `json:"layout,omitempty"`       // further Handle calls (nested patterns, mounted muxes, root pattern)
+	Restart []phase  `json:"restart,omitempty"`      // further runs of the SAME Service object: Shutdown, reconfigure, Serve on a fresh connection
+	Run     int      `json:"observed_run,omitempty"` // which run of the sequence this case observes (0 = first)
+	Queue   string   `json:"queue"`                  // "default" (= service name), "off", or a group name
 	Extra   int      `json:"extra_resetall"`
 	Live    bool     `json:"live,omitempty"` // real nats-server + forced reconnect
 	NatsSub string   `json:"nats_sub,omitempty"`
@@ -51,6 +54,18 @@ type hdl struct {
 	Mount string   `json:"mount,omitempty"`
 	Pat   string   `json:"pattern"`
 	Kinds []string `json:"kinds"` // may be empty: a handler without any method
+}
+
+// phase is what happens to the stopped service before it is served again.
+type phase struct {
+	Reconfigure bool     `json:"set_owned_resources"` // call SetOwnedResources(Res, Acc) while stopped
+	Res         []string `json:"resources"`
+	ResSet      bool     `json:"resources_set"`
+	Acc         []string `json:"access"`
+	AccSet      bool     `json:"access_set"`
+	Add         []hdl    `json:"add_handlers,omitempty"` // Handle calls made while stopped
+	Queue       string   `json:"queue,omitempty"`        // SetQueueGroup while stopped ("" = unchanged)
+	Extra       int      `json:"extra_resetall"`
 }
 
 // handles returns every Handle call of the configuration.
@@ -177,9 +192,17 @@ func buildService(d desc, lg *recLogger) *res.Service {
 	s.SetLogger(lg)
 	s.SetWorkerCount(1)
 	s.SetInChannelSize(4)
+	registerHandles(s, d.handles())
+	setOwned(s, d.Res, d.ResSet, d.Acc, d.AccSet)
+	setQueue(s, d.Queue)
+	return s
+}
+
+// registerHandles makes the Handle calls; handles sharing a Mount go to one new sub-mux mounted there.
+func registerHandles(s *res.Service, hs []hdl) {
 	subs := map[string]*res.Mux{}
 	var mounts []string
-	for _, h := range d.handles() {
+	for _, h := range hs {
 		var opts []res.Option
 		if has(h.Kinds, "get") {
 			opts = append(opts, res.GetResource(func(r res.GetRequest) { r.NotFound() }))
@@ -211,22 +234,28 @@ func buildService(d desc, lg *recLogger) *res.Service {
 	for _, m := range mounts {
 		s.Mount(m, subs[m])
 	}
+}
+
+func setOwned(s *res.Service, res []string, resSet bool, acc []string, accSet bool) {
 	var r, a []string
-	if d.ResSet {
-		r = append([]string{}, d.Res...)
+	if resSet {
+		r = append([]string{}, res...)
 	}
-	if d.AccSet {
-		a = append([]string{}, d.Acc...)
+	if accSet {
+		a = append([]string{}, acc...)
 	}
 	s.SetOwnedResources(r, a)
-	switch d.Queue {
+}
+
+func setQueue(s *res.Service, q string) {
+	switch q {
 	case "default":
+		s.SetQueueGroup(s.Path()) // the default queue group is the service name
 	case "off":
 		s.SetQueueGroup("")
 	default:
-		s.SetQueueGroup(d.Queue)
+		s.SetQueueGroup(q)
 	}
-	return s
 }
 
 func effQueue(d desc) string {
@@ -374,23 +403,35 @@ func classifyErrs(errs []string) int {
 	return e
 }
 
-// runRecorded serves the configuration on the recording connection.
-func runRecorded(d desc) (o observed, impl string) {
+// serveOnce serves the service on a fresh recording connection, calls ResetAll extra times and shuts down.
+func serveOnce(s *res.Service, lg *recLogger, extra int) (o observed, impl string) {
 	defer func() {
 		if r := recover(); r != nil {
 			impl = fmt.Sprintf("panic: %v", r)
 		}
 	}()
-	lg := &recLogger{}
-	s := buildService(d, lg)
+	lg.mu.Lock()
+	lg.errs = nil
+	lg.mu.Unlock()
 	conn := &recConn{}
 	served := make(chan struct{})
 	s.SetOnServe(func(*res.Service) { close(served) })
 	done := make(chan error, 1)
-	go func() { done <- s.Serve(conn) }()
+	go func() {
+		// after a failed subscribe the service shuts itself down asynchronously: wait until it is stopped
+		for i := 0; ; i++ {
+			err := s.Serve(conn)
+			if err != nil && strings.Contains(err.Error(), "not stopped") && i < 2000 {
+				time.Sleep(time.Millisecond)
+				continue
+			}
+			done <- err
+			return
+		}
+	}()
 	select {
 	case <-served:
-		for i := 0; i < d.Extra; i++ {
+		for i := 0; i < extra; i++ {
 			s.ResetAll()
 		}
 		if err := s.Shutdown(); err != nil {
@@ -426,6 +467,70 @@ func runRecorded(d desc) (o observed, impl string) {
 			continue
 		}
 		o.resets = append(o.resets, pl)
+	}
+	return
+}
+
+// runResult is one run of a sequence: the configuration in force during that run and what was observed.
+type runResult struct {
+	cfg  desc
+	ob   observed
+	impl string
+}
+
+// runRecorded serves the configuration on the recording connection; with d.Restart the SAME Service
+// object is then reconfigured while stopped and served again on a fresh connection, once per phase.
+func runRecorded(d desc) (out []runResult) {
+	lg := &recLogger{}
+	var s *res.Service
+	cur := d
+	cur.Restart = nil
+	func() {
+		defer func() {
+			if r := recover(); r != nil {
+				out = append(out, runResult{cfg: cur, impl: fmt.Sprintf("panic while building: %v", r)})
+			}
+		}()
+		s = buildService(d, lg)
+	}()
+	if s == nil {
+		return
+	}
+	ob, iv := serveOnce(s, lg, d.Extra)
+	out = append(out, runResult{cur, ob, iv})
+	for k, ph := range d.Restart {
+		next := cur
+		next.Layout = append(append([]hdl{}, cur.Layout...), ph.Add...)
+		if ph.Reconfigure {
+			next.Res, next.ResSet, next.Acc, next.AccSet = ph.Res, ph.ResSet, ph.Acc, ph.AccSet
+		}
+		if ph.Queue != "" {
+			next.Queue = ph.Queue
+		}
+		next.Extra = ph.Extra
+		next.Run = k + 1
+		var piv string
+		func() {
+			defer func() {
+				if r := recover(); r != nil {
+					piv = fmt.Sprintf("panic while reconfiguring: %v", r)
+				}
+			}()
+			registerHandles(s, ph.Add)
+			if ph.Reconfigure {
+				setOwned(s, ph.Res, ph.ResSet, ph.Acc, ph.AccSet)
+			}
+			if ph.Queue != "" {
+				setQueue(s, ph.Queue)
+			}
+		}()
+		if piv != "" {
+			out = append(out, runResult{cfg: next, impl: piv})
+			return
+		}
+		cur = next
+		ob, iv := serveOnce(s, lg, ph.Extra)
+		out = append(out, runResult{cur, ob, iv})
 	}
 	return
 }
@@ -672,6 +777,9 @@ func specValid(p string) bool { // valid NATS wildcard subject, wildcards as who
 }
 
 func main() {
+	// -stale-defaults adds stop/start sequences in which handlers are registered while the service is
+	// stopped and SetOwnedResources is NOT called again (ownership stays "nil = default" for the user).
+	staleDefaults := flag.Bool("stale-defaults", false, "include restart sequences that add handlers while stopped without calling SetOwnedResources again")
 	o := ParseOpts()
 	r := NewRng(o.Seed)
 	thorough := o.Tier == "thorough"
@@ -682,10 +790,24 @@ func main() {
 	rejectedSeen := 0
 	eliminatedSeen := 0
 
+	var addRun func(kind string, full desc, d desc, ob observed, iv string)
 	add := func(kind string, d desc) {
-		ob, iv := runRecorded(d)
-		c := Case{Term: caseTerm(d, ob), Desc: d}
+		for _, rr := range runRecorded(d) {
+			addRun(kind, d, rr.cfg, rr.ob, rr.impl)
+		}
+	}
+	// full: the whole (possibly multi-run) configuration, kept as the replayable description;
+	// d: the configuration in force during the observed run
+	addRun = func(kind string, full desc, d desc, ob observed, iv string) {
+		full.Run = d.Run
+		c := Case{Term: caseTerm(d, ob), Desc: full}
 		dist[kind]++
+		if len(full.Restart) > 0 {
+			c.Tags = append(c.Tags, "restart", fmt.Sprintf("run-%d", d.Run))
+			if d.Run > 0 {
+				dist["restart-later-run"]++
+			}
+		}
 		for _, h := range d.handles() {
 			if h.full() == "" {
 				c.Tags = append(c.Tags, "root-handler")
@@ -736,7 +858,7 @@ func main() {
 			dist["nontrivial"]++
 		}
 		if iv != "" {
-			impl = append(impl, ImplViolation{What: iv, Desc: d, Tags: c.Tags})
+			impl = append(impl, ImplViolation{What: iv, Desc: full, Tags: c.Tags})
 		}
 		cases = append(cases, c)
 	}
@@ -936,6 +1058,92 @@ func main() {
 				}
 				li++
 			}
+		}
+		// (h) stop/start cycles of ONE Service object: run with configuration A, Shutdown, reconfigure to B
+		// while stopped (other lists, back to nil, explicitly empty, handlers added), Serve again on a
+		// fresh connection; every run is one case carrying the configuration in force during that run
+		type own struct {
+			res  []string
+			rset bool
+			acc  []string
+			aset bool
+		}
+		owns := []own{
+			{nil, false, nil, false},
+			{[]string{}, true, []string{}, true},
+			{[]string{"a.>"}, true, []string{"a.*"}, true},
+			{[]string{"b", "b.>", "b.c"}, true, []string{">"}, true},
+			{nil, false, []string{"x.>"}, true},
+			{[]string{"x.*"}, true, nil, false},
+			{[]string{"a.>"}, true, []string{}, true},
+		}
+		ph := func(o own, add []hdl, q string, extra int) phase {
+			return phase{Reconfigure: true, Res: o.res, ResSet: o.rset, Acc: o.acc, AccSet: o.aset, Add: add, Queue: q, Extra: extra}
+		}
+		both := []hdl{{Pat: "model", Kinds: []string{"get", "access"}}}
+		ri := 0
+		for _, a := range owns {
+			for _, b := range owns {
+				d := desc{Name: names[ri%len(names)], Res: a.res, ResSet: a.rset, Acc: a.acc, AccSet: a.aset, Layout: both,
+					Queue: queues[ri%len(queues)], Extra: ri % 2, Restart: []phase{ph(b, nil, "", 1)}}
+				if ri%5 == 0 {
+					d.Restart = append(d.Restart, ph(a, nil, queues[(ri+1)%len(queues)], 0)) // and back to A
+				}
+				ri++
+				add("restart", d)
+			}
+		}
+		// handlers registered while stopped change the default ownership
+		getOnly := []hdl{{Pat: "model", Kinds: []string{"get"}}}
+		accOnly := []hdl{{Pat: "model.$id", Kinds: []string{"access"}}}
+		accMounted := []hdl{{Mount: "m", Pat: "x", Kinds: []string{"access"}}}
+		for i, n := range names {
+			add("restart", desc{Name: n, Layout: getOnly, Queue: "default", Extra: 1,
+				Restart: []phase{ph(owns[0], accOnly, "", 1)}})
+			add("restart", desc{Name: n, Layout: getOnly, Queue: "off", Extra: 0,
+				Restart: []phase{ph(owns[0], accMounted, "", 1), ph(owns[2], nil, "", 1), ph(owns[0], nil, "", 1)}})
+			add("restart", desc{Name: n, Layout: accOnly, Queue: queues[i%3], Extra: 1,
+				Restart: []phase{ph(owns[5], getOnly, "", 0), ph(owns[0], nil, "", 2)}})
+			add("restart", desc{Name: n, Queue: "off", Extra: 0, // nothing registered: no resources to serve
+				Restart: []phase{ph(owns[0], getOnly, "", 1), ph(owns[0], accOnly, "", 1)}})
+			add("restart", desc{Name: n, Res: []string{"a.>", "a.b"}, ResSet: true, Queue: "off", Extra: 0, // explicit lists, no handler
+				Restart: []phase{ph(owns[0], both, "", 1)}})
+		}
+		if *staleDefaults {
+			for _, n := range names {
+				add("restart-no-reconfigure", desc{Name: n, Layout: getOnly, Queue: "off", Extra: 0,
+					Restart: []phase{{Add: accOnly, Extra: 1}}})
+				add("restart-no-reconfigure", desc{Name: n, Layout: accOnly, Queue: "off", Extra: 0,
+					Restart: []phase{{Add: getOnly, Extra: 1}}})
+			}
+		}
+		// random sequences of 2-3 runs
+		nseq := 40
+		if thorough {
+			nseq = 600
+		}
+		randOwn := func() own {
+			var o own
+			o.res, o.rset = pickList(valid3)
+			o.acc, o.aset = pickList(valid3)
+			return o
+		}
+		for i := 0; i < nseq; i++ {
+			a := randOwn()
+			d := desc{Name: r.Pick(names), Res: a.res, ResSet: a.rset, Acc: a.acc, AccSet: a.aset,
+				Kinds: kindSets[r.Intn(len(kindSets))], HPat: r.Pick(hpats), Queue: r.Pick(queues), Extra: r.Intn(2)}
+			for k := 1 + r.Intn(2); k > 0; k-- {
+				var addH []hdl
+				if r.Chance(30) {
+					addH = []hdl{{Pat: fmt.Sprintf("added%d.$id", k), Kinds: kindSets[r.Intn(len(kindSets))]}}
+				}
+				q := ""
+				if r.Chance(30) {
+					q = r.Pick(queues)
+				}
+				d.Restart = append(d.Restart, ph(randOwn(), addH, q, r.Intn(2)))
+			}
+			add("restart-random", d)
 		}
 		// (f) thorough: embedded nats-server
 		if thorough {
